@@ -142,16 +142,14 @@ impl OpenOptions {
     /// Will panic if the pagesize the database is opened with is not the same as the pagesize it was created with.
     pub fn open<P: AsRef<Path>>(self, path: P) -> Result<DB> {
         let path: &Path = path.as_ref();
-        let file = if !path.exists() {
-            init_file(
-                path,
-                self.pagesize,
-                self.num_pages,
-                self.flags.direct_writes,
-            )?
-        } else {
-            open_file(path, false, self.flags.direct_writes)?
-        };
+        // Open the file (creating it if it is not there yet) and take the exclusive lock before
+        // looking at it: whoever holds the lock and finds the file empty initializes it, everybody
+        // else waits and then sees an initialized, current file.
+        let mut file = open_file(path, true, self.flags.direct_writes)?;
+        file.lock_exclusive()?;
+        if file.metadata()?.len() == 0 {
+            init_file(&mut file, self.pagesize, self.num_pages)?;
+        }
 
         let db = DBInner::open(file, self.pagesize, self.flags)?;
         Ok(DB {
@@ -254,8 +252,8 @@ pub(crate) struct DBInner {
 }
 
 impl DBInner {
+    // The caller holds the exclusive lock on the file.
     pub(crate) fn open(file: File, pagesize: u64, flags: DBFlags) -> Result<DBInner> {
-        file.lock_exclusive()?;
         let mmap = mmap(&file, flags.mmap_populate)?;
         let mmap = Mutex::new(Arc::new(mmap));
         let db = DBInner {
@@ -372,8 +370,7 @@ impl DBInner {
     }
 }
 
-fn init_file(path: &Path, pagesize: u64, num_pages: usize, direct_write: bool) -> Result<File> {
-    let mut file = open_file(path, true, direct_write)?;
+fn init_file(file: &mut File, pagesize: u64, num_pages: usize) -> Result<()> {
     file.allocate(pagesize * (num_pages as u64))?;
     let mut buf = vec![0; (pagesize * 4) as usize];
     let mut get_page = |index: u64| {
@@ -413,7 +410,7 @@ fn init_file(path: &Path, pagesize: u64, num_pages: usize, direct_write: bool) -
     file.write_all(&buf[..])?;
     file.flush()?;
     file.sync_all()?;
-    Ok(file)
+    Ok(())
 }
 
 #[cfg(test)]
@@ -511,7 +508,7 @@ fn open_file<P: AsRef<Path>>(path: P, create: bool, direct_write: bool) -> Resul
     let mut open_options = FileOpenOptions::new();
     open_options.write(true).read(true);
     if create {
-        open_options.create_new(true);
+        open_options.create(true);
     }
     if direct_write {
         open_options.custom_flags(O_DIRECT);
@@ -524,7 +521,7 @@ fn open_file<P: AsRef<Path>>(path: P, create: bool, direct_write: bool) -> Resul
     let mut open_options = FileOpenOptions::new();
     open_options.write(true).read(true);
     if create {
-        open_options.create_new(true);
+        open_options.create(true);
     }
     Ok(open_options.open(path)?)
 }
